@@ -274,7 +274,7 @@ CHECKS["C12"] = {
     "post": c12_post,
     "level": "fault_enumeration", "engine": "E4",
     "technique": "deviation-bounded exhaustive fault enumeration: every single deviation of a stated operator set (and stated pairs) applied to well-formed seeds, each loaded into the real library under ASan+UBSan with a per-input report hook and watchdog; differential determinism check across auto-var-init builds",
-    "rule": "seeds (10 shipped + 7 synthetic quick; all shipped + 11 synthetic thorough) x operators: truncate to every length; every byte x {8 bit flips, 00, ff}; every header count x 13 values with/without padding; version/magic bytes; every type-index byte x 4; every ttinfo field x boundary values; every 8-byte time x 14 values; abbreviation NULs; footer := each string of the C16 corpus + stress footers; header/body splices between all seed pairs; data-source deviations (k-th Read short/empty/1 byte for k<40, failing Skip, 64 KiB Version); depth 2: pairs of count edits, time x footer, type-index x typecnt, truncate x count; structure-aware degenerate files: the complete product of header counts (timecnt 0-2, typecnt {0,1,2,255,256,257}, charcnt {0,1,4,8}, indicator counts {0, typecnt, typecnt+1}, leapcnt 0/1, 3 type-index patterns) under 5 version-1 headers and 4 footers, each with a body of exactly the declared size; inputs whose declared data length exceeds 64 MiB (512 MiB) are outside the property's precondition and skipped; class = operator x loads/rejected",
+    "rule": "seeds (10 shipped + 7 synthetic quick; thorough: the same 10 + 11 synthetic as primary seeds, plus every distinct shipped zone file (~430) as a non-primary seed with a reduced operator set: bit flips outside the time/index arrays, every 16th corpus footer, sub-sampled count pairs, splices against primary seeds) x operators: truncate to every length; every byte x {8 bit flips, 00, ff}; every header count x 13 values with/without padding; version/magic bytes; every type-index byte x 4; every ttinfo field x boundary values; every 8-byte time x 14 values; abbreviation NULs; footer := each string of the C16 corpus + stress footers; header/body splices between all seed pairs; data-source deviations (k-th Read short/empty/1 byte for k<40, failing Skip, 64 KiB Version); depth 2: pairs of count edits, time x footer, type-index x typecnt, truncate x count; structure-aware degenerate files: the complete product of header counts (timecnt 0-2, typecnt {0,1,2,255,256,257}, charcnt {0,1,4,8}, indicator counts {0, typecnt, typecnt+1}, leapcnt 0/1, 3 type-index patterns) under 5 version-1 headers and 4 footers, each with a body of exactly the declared size; inputs whose declared data length exceeds 64 MiB (512 MiB) are outside the property's precondition and skipped; class = operator x loads/rejected",
     "design_ref": "DESIGN.md 3/C12",
     "text": "Each mutant is loaded twice under different names in the sanitizer build (UBSan reports captured per input, ASan fatal, 20 s no-progress watchdog); a failed load must leave UTC; on a loaded zone the totality panel (extreme lookups both ways, transition chains, format) must run clean and give the same answers both times; per-case outcome hashes must agree with two uninstrumented clang builds that pre-fill automatic variables differently.",
     "level_note": "Trusted base: ASan/UBSan runtimes, the watchdog, the reference TZif reader used only to describe inputs (facts for known-finding predicates). Bounds: one deviation per input (pairs only for the listed interacting operators); no claim for inputs that need three simultaneous deviations.",
